@@ -22,11 +22,11 @@ func init() {
 				Blocks:   16,
 				Procs:    16,
 				Rule: "case = (constructor, operation history over Add/Push/Pop/PopLast/Clear); three generators: " +
-					"(a) scripted rotate-then-grow scenarios for every capacity 1..24 x head position x {Add,Push} (seed-independent), " +
+					"(a) scripted rotate-then-grow scenarios for every capacity 1..24 x every head position x {Add,Push} (seed-independent), and for every capacity 25..1400 (9000 thorough) x three head positions, continued to the next regrow, with constant-time observations on every step and the full comparison after every regrow, " +
 					"(b) exhaustive enumeration of all histories up to a length bound over {Add,Push,Pop,PopLast} for preallocated sizes 0..4, " +
 					"(c) PRNG histories of 20..300 ops with phase-switching op mixes. After EVERY op: Len, IsEmpty, Front, Slice, Each (with early stop), Peek(n) for all n in [-Len-2, Len+1]. " +
 					"distinct = distinct (constructor, history) hashes; non-trivial = the history contained at least one wrap of the ring indices or a regrow while head > 0 (seen through the VerifState hook)",
-				Required:     []string{"rotate_then_grow_add", "rotate_then_grow_push", "backward_wrap_push", "forward_wrap_add", "pop_to_empty", "steps"},
+				Required:     []string{"rotate_then_grow_add", "rotate_then_grow_push", "backward_wrap_push", "forward_wrap_add", "pop_to_empty", "steps", "large_capacity_scenarios"},
 				Exhaustive:   true,
 				Assumptions:  []string{"reference model: Go slice with append/prepend/pop semantics", "hook queue.VerifState used for reach counters only, never for verdicts"},
 				CoverPkgs:    []string{"github.com/creachadair/mds/queue", "github.com/creachadair/mds/slice"},
@@ -56,7 +56,7 @@ type c07case struct {
 
 // c07run executes one history against the real queue and the reference and
 // returns whether it was non-trivial. It reports at most one violation.
-func c07run(c *fw.Ctx, ctorSize int, ops []c07op) (nontrivial bool, ok bool) {
+func c07run(c *fw.Ctx, ctorSize int, ops []c07op, light bool) (nontrivial bool, ok bool) {
 	var q *queue.Queue[int]
 	var ctor string
 	switch {
@@ -74,10 +74,35 @@ func c07run(c *fw.Ctx, ctorSize int, ops []c07op) (nontrivial bool, ok bool) {
 	next := 1
 	log := make([]string, 0, len(ops))
 	fail := func(format string, args ...any) {
-		c.Fail(c07case{Ctor: ctor, Ops: log}, "after %d ops: "+format, append([]any{len(log)}, args...)...)
+		shown := log
+		if len(shown) > 600 {
+			// long scripted scenario: the constructor and the op counts describe it; keep the tail
+			shown = append([]string{fmt.Sprintf("... %d earlier operations omitted ...", len(log)-600)}, log[len(log)-600:]...)
+		}
+		c.Fail(c07case{Ctor: ctor, Ops: shown}, "after %d ops: "+format, append([]any{len(log)}, args...)...)
 	}
 	okAll := true
+	grew := false
 	check := func() bool {
+		if light && !grew && len(log)%509 != 0 {
+			// light mode (large scripted scenarios): constant-time observations on
+			// every step, the full comparison after every regrow and every 509 steps
+			if q.Len() != len(ref) || q.IsEmpty() != (len(ref) == 0) {
+				fail("Len=%d IsEmpty=%v want %d elements", q.Len(), q.IsEmpty(), len(ref))
+				return false
+			}
+			if len(ref) > 0 {
+				mid := len(log) % len(ref)
+				f, _ := q.Peek(0)
+				l, _ := q.Peek(-1)
+				m, mok := q.Peek(mid)
+				if q.Front() != ref[0] || f != ref[0] || l != ref[len(ref)-1] || !mok || m != ref[mid] {
+					fail("Front=%d Peek(0)=%d Peek(-1)=%d Peek(%d)=%d, want %d %d %d %d", q.Front(), f, l, mid, m, ref[0], ref[0], ref[len(ref)-1], ref[mid])
+					return false
+				}
+			}
+			return true
+		}
 		if got := q.Len(); got != len(ref) {
 			fail("Len=%d want %d", got, len(ref))
 			return false
@@ -154,6 +179,7 @@ func c07run(c *fw.Ctx, ctorSize int, ops []c07op) (nontrivial bool, ok bool) {
 			if full && head == 0 {
 				c.Add("grow_in_place", 1)
 			}
+			grew = full
 			v := next
 			next++
 			log = append(log, fmt.Sprintf("Add(%d)", v))
@@ -168,6 +194,7 @@ func c07run(c *fw.Ctx, ctorSize int, ops []c07op) (nontrivial bool, ok bool) {
 				c.Add("backward_wrap_push", 1)
 				nontrivial = true
 			}
+			grew = full
 			v := next
 			next++
 			log = append(log, fmt.Sprintf("Push(%d)", v))
@@ -175,6 +202,7 @@ func c07run(c *fw.Ctx, ctorSize int, ops []c07op) (nontrivial bool, ok bool) {
 			q.Push(v)
 			ref = append([]int{v}, ref...)
 		case qPop:
+			grew = false
 			got, gok := q.Pop()
 			log = append(log, "Pop")
 			wok := len(ref) > 0
@@ -195,6 +223,7 @@ func c07run(c *fw.Ctx, ctorSize int, ops []c07op) (nontrivial bool, ok bool) {
 				return nontrivial, false
 			}
 		case qPopLast:
+			grew = false
 			got, gok := q.PopLast()
 			log = append(log, "PopLast")
 			wok := len(ref) > 0
@@ -245,6 +274,7 @@ func c07hash(ctor int, ops []c07op) uint64 {
 
 func runC07(c *fw.Ctx) {
 	idx := 0
+	light := false
 	runCase := func(ctor int, ops []c07op, enum bool) {
 		i := idx
 		idx++
@@ -252,7 +282,7 @@ func runC07(c *fw.Ctx) {
 			return
 		}
 		var nt, ok bool
-		okRun, pv, stack := fw.Try(func() { nt, ok = c07run(c, ctor, ops) })
+		okRun, pv, stack := fw.Try(func() { nt, ok = c07run(c, ctor, ops, light) })
 		if !okRun {
 			names := make([]string, len(ops))
 			for k, o := range ops {
@@ -326,6 +356,47 @@ func runC07(c *fw.Ctx) {
 			}
 		}
 	}
+	idx = 50000
+	// (a') the same scripted scenarios at larger capacities, where the growth
+	// policy of append changes (it stops doubling at 256 elements) and buffers
+	// cross allocator size classes: every capacity 25..maxCap for three head
+	// positions, light checking (full comparison after every regrow).
+	light = true
+	maxCap := c.Pick(1400, 9000)
+	for capy := 25; capy <= maxCap; capy++ {
+		if capy%c.NBlocks != c.Block {
+			idx += 6
+			continue
+		}
+		for _, h := range []int{1, capy / 3, capy - 1} {
+			for _, last := range []c07op{qAdd, qPush} {
+				var ops []c07op
+				for i := 0; i < capy; i++ {
+					ops = append(ops, qAdd)
+				}
+				for i := 0; i < h; i++ {
+					ops = append(ops, qPop)
+				}
+				for i := 0; i < h; i++ {
+					ops = append(ops, qAdd)
+				}
+				// full with head == h: this op must rotate and regrow; then keep going until the next regrow
+				ops = append(ops, last, qPop, qPop, qAdd, qPush, qAdd)
+				for i := 0; i < capy/2+8; i++ {
+					ops = append(ops, last)
+				}
+				for i := 0; i < 6; i++ {
+					ops = append(ops, qPop, qPopLast)
+				}
+				runCase(capy, ops, true)
+				c.Add("large_capacity_scenarios", 1)
+			}
+		}
+		if c.Stopped() {
+			return
+		}
+	}
+	light = false
 	idx = 100000
 
 	// (b) exhaustive enumeration over {Add,Push,Pop,PopLast} up to length L
@@ -387,7 +458,7 @@ func runC07(c *fw.Ctx) {
 		// undo Begin's bookkeeping double count: runCase calls Begin again, so
 		// run inline instead.
 		var nt bool
-		okRun, pv, stack := fw.Try(func() { nt, _ = c07run(c, ctor, ops) })
+		okRun, pv, stack := fw.Try(func() { nt, _ = c07run(c, ctor, ops, false) })
 		if !okRun {
 			c.FailKind("panic", map[string]any{"ctor": ctor, "nops": len(ops)}, "panic: %v\n%s", pv, stack)
 		}
